@@ -52,7 +52,16 @@ def norm_path(p):
                 continue
         out.append(ch)
         i += 1
-    return "".join(out)
+    r = "".join(out)
+    if "BTree" in r or "btree_" in r:
+        # the rules speak about maps, sets and their entry API, not about how they are implemented:
+        # the ordered collections are read under the names of the hashed ones (callee paths only;
+        # types of locals and fields keep their names - R-DET and R-ORDER look at those)
+        r = (r.replace("std::collections::BTreeMap", "std::collections::HashMap")
+              .replace("std::collections::btree_map::", "std::collections::hash_map::")
+              .replace("std::collections::BTreeSet", "std::collections::HashSet")
+              .replace("std::collections::btree_set::", "std::collections::hash_set::"))
+    return r
 
 
 # public types of the runtime, whose field names the rule tables use; any other struct of lexgen_util is
